@@ -124,6 +124,7 @@ func execute(t *testing.T, c Case) (viol string, hang string) {
 	defer gate.releaseAll()
 	pinfo := peer.AddrInfo{ID: gen.Keys()[0].ID}
 	pubSeq := 0
+	gossiped := 0 // gossip messages handed to the watcher before Close (each becomes a delivery once released)
 	var calls []*call
 	closed := false       // a Close call has been started
 	pushes, nexts := 0, 0 // pushing Direct calls / Next calls started before any Close
@@ -188,8 +189,9 @@ func execute(t *testing.T, c Case) (viol string, hang string) {
 					}
 				}
 			} else {
-				wantD := min(pushes, nexts+1) + (count("direct") - pushes) // duplicates return at once
-				wantN := min(pushes, nexts)
+				// gossip messages the watcher delivers (gossiped) compete with Direct calls for the one slot
+				wantD := min(pushes, max(0, nexts+1-gossiped)) + (count("direct") - pushes) // duplicates return at once
+				wantN := min(pushes, nexts) // consumers are served by Direct items or gossip items, whichever comes
 				if fd := finished("direct"); fd < wantD {
 					missing = fmt.Sprintf("%d of %d Direct calls returned, %d must have (one delivery slot, %d consumers)", fd, count("direct"), wantD, nexts)
 				} else if fn := finished("next"); fn < wantN {
@@ -247,6 +249,7 @@ func execute(t *testing.T, c Case) (viol string, hang string) {
 			if gate.parked() == 0 {
 				gate.disarm() // the message did not come back to this host's own subscription in time: nothing parked
 			}
+			gossiped++ // parked now, or still on its way: either way it may take the slot later
 			continue
 		}
 		if s.Op == "uncache" {
